@@ -12,20 +12,20 @@ import (
 )
 
 type OblResult struct {
-	Name     string
-	Func     string
-	VCs      int
-	Status   string // "discharged", "failed", "undecided"
-	Solver   string
-	Time     float64
-	Desc     string
-	Pos      string
-	Failing  *Obligation // first failing VC
-	FailRes  Result
-	Serves   []string
-	Disagree bool
+	Name      string
+	Func      string
+	VCs       int
+	Status    string // "discharged", "failed", "undecided"
+	Solver    string
+	Time      float64
+	Desc      string
+	Pos       string
+	Failing   *Obligation // first failing VC
+	FailRes   Result
+	Serves    []string
+	Disagree  bool
 	FailedVCs []string
-	exec     *Exec
+	exec      *Exec
 }
 
 type FuncResult struct {
@@ -40,12 +40,12 @@ type FuncResult struct {
 }
 
 type verifyOpts struct {
-	timeout  time.Duration
-	thorough bool
-	depth    int
-	pathCap  int
-	workers  int
-	filter   func(class string) bool // nil: discharge everything
+	timeout      time.Duration
+	thorough     bool
+	depth        int
+	pathCap      int
+	workers      int
+	filter       func(class string) bool // nil: discharge everything
 	fullFallback bool
 }
 
@@ -59,12 +59,16 @@ func (x *Exec) globalAxioms() []*Term {
 	var out []*Term
 	// constant strings: contents of the immutable string store at their ids
 	var names []string
-	for n := range x.prog.strByID {
+	strMu.Lock()
+	byID := map[string]string{}
+	for n, v := range x.prog.strByID {
 		names = append(names, n)
+		byID[n] = v
 	}
+	strMu.Unlock()
 	sort.Strings(names)
 	for _, n := range names {
-		s := x.prog.strByID[n]
+		s := byID[n]
 		id := App(n, SInt)
 		arr := App("zeroarr", SArrI)
 		_ = arr
